@@ -6,8 +6,8 @@
 * `const_moment`  — the real `get_const_moment` for Sin/Cos/Exp of a constant.
 * `quad_moments`  — an independent mpmath oracle (quadrature of the defining integral / finite sums);
                     imports nothing from Polar.
-* `analyze_repaired` — the whole pipeline with an in-memory repair of the "Expt" guard (attribution
-                    of finding F5 only; never used to decide a verdict).
+* `analyze_repaired` — the whole pipeline with ONE known defect repaired in memory (attribution of the
+                    findings F131, F132, F133 only; never used to decide a verdict).
 """
 import time
 
@@ -470,20 +470,6 @@ def func_const_value(func, arg, k, dps=45):
 # attribution helpers: the real code with ONE defect repaired in memory (never used for a verdict)
 # --------------------------------------------------------------------------------------------------
 
-def _repaired_get_func_moment(cls, dist, func_powers):
-    """F5: the guard tests "Exp" instead of "Expt" """
-    from program.assignment.exceptions import FunctionalAssignmentException
-    is_trig_moment = "Sin" in func_powers or "Cos" in func_powers
-    is_exp_moment = "Exp" in func_powers
-    if is_trig_moment and is_exp_moment:
-        raise FunctionalAssignmentException("Exponential and trigonometric moments cannot be mixed")
-    if is_trig_moment:
-        return cls.get_trig_moment(dist, func_powers)
-    if "Exp" in func_powers:
-        return cls.get_exp_moment(dist, func_powers)
-    raise FunctionalAssignmentException("Unknown functions")
-
-
 def _repaired_get_moment(self, k, rec_builder_context, arithm_cond=1, rest=1):
     """F131: the freshly computed function value gets its own placeholder symbol, so that it is not
     confused with the default (= the variable's previous value) of a conditioned assignment"""
@@ -548,10 +534,6 @@ def _apply_repairs(names):
         orig_diff = fam.diff
         fam.diff = lambda expr, t, k: _DerivAtSpecialPoint(expr, t, k)
         undo.append(lambda: setattr(fam, "diff", orig_diff))
-    if "guard" in names:
-        orig = FA.__dict__["get_func_moment"]
-        FA.get_func_moment = classmethod(_repaired_get_func_moment)
-        undo.append(lambda: setattr(FA, "get_func_moment", orig))
     if "condfunc" in names:
         orig_gm = FA.__dict__["get_moment"]
         FA.get_moment = _repaired_get_moment
@@ -575,7 +557,7 @@ def _apply_repairs(names):
     return undo
 
 
-def analyze_repaired(text, goals, nmax=3, settings=None, repairs=("guard",)):
+def analyze_repaired(text, goals, nmax=3, settings=None, repairs=()):
     """harness.tasks.analyze.analyze with the named defects repaired in memory"""
     from harness.tasks.analyze import analyze
     undo = _apply_repairs(list(repairs))
@@ -586,7 +568,7 @@ def analyze_repaired(text, goals, nmax=3, settings=None, repairs=("guard",)):
             u()
 
 
-def func_moment_repaired(family, params, powers, repairs=("guard",)):
+def func_moment_repaired(family, params, powers, repairs=()):
     """get_func_moment on a real distribution with a repair: outcome only"""
     from program.assignment.functional_assignment import FunctionalAssignment as FA
     undo = _apply_repairs(list(repairs))
